@@ -13,7 +13,9 @@ with" is the key handed to UdpClient(...) by the harness, remembered HERE (and i
 the connection object holds at the moment it judges a hello.
 Late datagrams: handshake datagrams (genuine, re-signed, foreign, replayed, altered) are also delivered AFTER every
 terminal state of the client (connect time-out fired; dropped by a bad signature; closed by the application; closed by
-the peer; DROPPED) and of the server connection (kicked by the application, challenge never answered)."""
+the peer; DROPPED) and of the server connection (kicked by the application, challenge never answered).
+Run-level ghost (coq/Model/HsNet.v): the set of hello payloads the genuine server has built so far (this session's
+server connection + other sessions); a pinned client may only ever adopt a member of that set."""
 import struct, io, os
 from harness import lib
 from harness import connsim as S
@@ -38,7 +40,12 @@ ASSUMPTIONS = [
     "its signer; ECDH commutes; AES-GCM opens only what was sealed under the same key with the same header",
     "honest_agree needs loadb(dumpb(m)) = m for the three handshake classes (Serializable codec: property C13)",
     "the secrecy of the session key against a passive attacker (CDH/HKDF) is not stated; a hello replayed from another "
-    "session of the same server is signed by the right key and is adopted (the client then never completes)",
+    "session of the same server is signed by the right key and is adopted (the client then never completes: "
+    "C02_run_foreign_hello_never_completes, under the AES-GCM hypothesis that what the server connection opens under "
+    "its key was sealed by this client)",
+    "run-level theorems: Dolev-Yao hypothesis on the hellos presented to the client (a root signature only on payloads "
+    "the root key holder signed earlier: by this server connection or by another session); the server connection's "
+    "events are unconstrained",
 ]
 TRUSTED = [
     "harness/hsworld.py: the abstraction function from real keys/signatures/session keys to symbolic terms "
@@ -106,6 +113,7 @@ class Session:
         self.shello = []                               # (salt id, hello payload bytes)
         self.chal = []                                 # (token, challenge payload bytes)
         self.adopted = []                              # client ghost
+        self.genuine = set()                           # run ghost: signed parts of the hellos THIS server connection built
         self.issued = None                             # token issued with the last server hello
         self.connects = 0
         self.oracle_fail = []
@@ -177,6 +185,7 @@ class Session:
                 q = conn.outgoing_messages
                 if q and q[-1].type.value == 2:
                     self.shello.append([sid_, bytes(q[-1].payload)])
+                    self.genuine.add(bytes(W.split_server_hello(bytes(q[-1].payload))[1]))
                 self.issued = int(conn.token)
             other = self.Sv.impl.ctxt.temp_connections.get(conn.addr)
             temp = -1 if other is None else (-2 if other is conn else int(other.token))
@@ -336,6 +345,11 @@ class Session:
                         m = Serializable.loadb(pl, server_public_key=pin)
                         if crypto.ecdh_client(conn.session_key, m.server_pubkey, m.salt) == key and m.token == conn.token:
                             ok = True
+                            # run level (C02_run_authentication): a client pinned to the genuine root adopts only a
+                            # hello whose signed part the genuine server built EARLIER, in this session or another one
+                            if self.pinned and bytes(payload) not in self.genuine and bytes(payload) not in GENUINE_OTHER:
+                                self.fail("pinned client adopted a hello the genuine server never built",
+                                          "ClientServerConnection._recvServerHello (run ghost)")
                             self.adopted.append(self.world.abstract_msg(pl)[1:])
                     except W.Unabstractable:
                         ok = True
@@ -724,12 +738,16 @@ def finish_honest(sess, stage):
     sess.ctick(sess.out["server"][-1] if len(sess.out["server"]) > 1 else None)
 
 
+GENUINE_OTHER = set()      # run ghost: signed parts of the hellos OTHER sessions of the genuine server built
+
+
 def other_session_hello(run):
     """a genuine server hello (signed by the same root) produced for ANOTHER client"""
     s = Session(run)
     honest_prefix(s, 2)
     b = payload_of_clear(s.out["server"][0])[2:]
     s.close()
+    GENUINE_OTHER.add(bytes(W.split_server_hello(b)[1]))
     return b
 
 
